@@ -33,6 +33,9 @@ type c12Block struct {
 	// block behind. Deeper rollbacks are not generated: with pruning, iavl v0.12.4 refuses them
 	// ("Orphan expires before it comes alive"), and nothing in posmint performs one.
 	Rollback int `json:"rollback,omitempty"`
+	// C12: after this block, ask the LIVE store object for a version the policy has pruned (or a future one);
+	// the refusal must leave the object exactly as it was
+	ProbeRefused bool `json:"probe_refused,omitempty"`
 }
 
 type c12Prog struct {
@@ -85,7 +88,7 @@ func genC12Common(t *rapid.T, tier string, crash bool) *c12Prog {
 			if rapid.IntRange(0, 3).Draw(t, "del") == 0 {
 				w.Del = true
 			} else {
-				w.V = genValHex(t, "v", false)
+				w.V = genValHex(t, "v", true)
 			}
 			b.Writes = append(b.Writes, w)
 		}
@@ -97,6 +100,9 @@ func genC12Common(t *rapid.T, tier string, crash bool) *c12Prog {
 			b.Crash = rapid.IntRange(0, 3).Draw(t, "crash") == 0
 		} else if rapid.IntRange(0, 4).Draw(t, "hasrollback") == 0 {
 			b.Rollback = 1
+		}
+		if !crash {
+			b.ProbeRefused = rapid.IntRange(0, 5).Draw(t, "proberefused") == 0
 		}
 		return b
 	}), minBlocks, maxBlocks).Draw(t, "blocks")
@@ -251,6 +257,7 @@ func execC12C13(p *c12Prog, c *Case, crashMode bool) *Violation {
 	c.Labelf("keepRecent=%d keepEvery=%d", p.KeepRecent, p.KeepEvery)
 	prunedSeen, retainedOld, reopenAfterDelete, deleted := false, false, false, false
 	replayed, replayedPruning := 0, false
+	probes := 0
 	crashInside2, crashAfterPrune := false, false
 
 	for bi := range p.Blocks {
@@ -337,6 +344,33 @@ func execC12C13(p *c12Prog, c *Case, crashMode bool) *Violation {
 			}
 		}
 
+		if !crashMode && b.ProbeRefused {
+			// the most recent pruned version, else the first future one
+			target := height + 1
+			for v := height - 1; v >= 1; v-- {
+				if !h.retained[v] {
+					target = v
+					break
+				}
+			}
+			var err error
+			res := catch(func() { err = rs.LoadVersion(target) })
+			if res.panicked {
+				return violf("C12/loadversion-panic", "live store at %d: LoadVersion(%d) panicked: %v", height, target, res.pv)
+			}
+			if err == nil {
+				return violf("C12/pruned-version-readable", "live store at %d: LoadVersion(%d) succeeded although that version is pruned or in the future (keepRecent=%d keepEvery=%d)", height, target, p.KeepRecent, p.KeepEvery)
+			}
+			if lc := rs.LastCommitID(); lc.Version != height || !bytes.Equal(lc.Hash, cid.Hash) {
+				return violf("C12/refused-load-changed-the-store", "live store at version %d: LoadVersion(%d) was refused (%v) but the store now reports commit id (%d,%X) instead of (%d,%X)",
+					height, target, err, lc.Version, lc.Hash, height, cid.Hash)
+			}
+			if msg, ok := s.content(rs, model); !ok {
+				return violf("C12/refused-load-changed-the-store", "live store at version %d: LoadVersion(%d) was refused (%v) but the content changed: %s", height, target, err, msg)
+			}
+			probes++
+		}
+
 		if !crashMode && b.Rollback > 0 {
 			target := height - 1
 			if target > 0 && h.retained[target] {
@@ -397,6 +431,9 @@ func execC12C13(p *c12Prog, c *Case, crashMode bool) *Violation {
 	}
 	if replayed > 0 {
 		c.Label("rollback-and-replay")
+	}
+	if probes > 0 {
+		c.Label("refused-load-on-the-live-store")
 	}
 	if replayedPruning {
 		c.Label("replayed-commit-prunes-an-already-released-version")
@@ -535,7 +572,7 @@ func (s *c12Sys) enumerateCrashes(c *Case, durable *crashDB, b *c12Block, height
 func init() {
 	rule12 := "each case is a history of 1-24 (thorough 60) commits over 1-4 IAVL stores + one transient store with a pruning policy (the three named strategies or " +
 		"keepRecent in {0,1,2,5,100} x keepEvery in {0,1,2,3,5,10000}), eager loading, per-block sets/overwrites/deletes (keys reused across blocks), transient writes, reopen points and (1 block in 5) a restart one block behind: LoadVersion(h-1) when retained, " +
-		"then the block re-executed identically must commit without panic to the same id; " +
+		"then the block re-executed identically must commit without panic to the same id; (1 block in 6) a LoadVersion of a pruned/future version on the live object must be refused and leave it unchanged; " +
 		"after every commit: version step, commit id, content, transient store empty; at every reopen and at the end a fresh store loads every version in [1,latest+1]: retained => committed content " +
 		"and id, pruned/future => error. Non-trivial = the history has a pruned version, a retained non-latest version and a reopen after a delete; distinctness = hash of the program"
 	register(&PropDef{ID: "C12", Rule: rule12, Gen: genC12, New: func() interface{} { return &c12Prog{} }, Exec: execC12,
